@@ -39,6 +39,16 @@ def splitArrow (payload : String) : String × String :=
   | [a, b] => (a, b)
   | _ => (payload, "")
 
+/-- History form of tputs / tgoto / tcolor lines: `<main part>[; <tparm call>]*` — the TParm calls are made BEFORE the
+calls of the main part (harness/engines/terminfo.go); the model threads their static variables. -/
+def splitHist (payload : String) : String × List (Bytes × List Value) :=
+  match splitTrim payload ";" with
+  | m :: cs => (m, cs.map parseCall)
+  | [] => ("", [])
+
+def histVars (cs : List (Bytes × List Value)) : Vars :=
+  cs.foldl (fun sv c => (TParm.tparm c.1 c.2 sv).2) noVars
+
 /-! model side -/
 
 def runTparm (payload : String) : String :=
@@ -49,23 +59,27 @@ def runTparm (payload : String) : String :=
   " ".intercalate r.1.reverse
 
 def runTputs (payload : String) : String :=
-  match words payload with
+  match words (splitHist payload).1 with
   | pad :: s :: _ => hex (TPuts.tputs (unhex pad) (unhex s)).bytes
   | _ => "bad-line"
 
 def runTgoto (env : Env) (payload : String) : String :=
-  match words payload with
+  let (m, pre) := splitHist payload
+  let sv := histVars pre
+  match words m with
   | [name, row, cols] =>
     match env.lookup name with
-    | some e => ",".intercalate ((intRanges cols).map fun c => hex (TPuts.tgoto e c (toInt! row) noVars).1)
+    | some e => ",".intercalate ((intRanges cols).map fun c => hex (TPuts.tgoto e c (toInt! row) sv).1)
     | none => "no-entry"
   | _ => "bad-line"
 
 def runTcolor (env : Env) (payload : String) : String :=
-  match words payload with
+  let (m, pre) := splitHist payload
+  let sv := histVars pre
+  match words m with
   | [name, fg, bgs] =>
     match env.lookup name with
-    | some e => ",".intercalate ((intRanges bgs).map fun b => hex (TPuts.tcolor e (toInt! fg) b noVars).1)
+    | some e => ",".intercalate ((intRanges bgs).map fun b => hex (TPuts.tcolor e (toInt! fg) b sv).1)
     | none => "no-entry"
   | _ => "bad-line"
 
@@ -127,7 +141,7 @@ def judgeTputs (payload : String) : String :=
 open Spec.TermCaps in
 def judgeTgoto (env : Env) (payload : String) : String :=
   let (a, obs) := splitArrow payload
-  match words a with
+  match words (splitHist a).1 with
   | [name, row, cols] =>
     match env.lookup name with
     | none => "no-entry"
@@ -147,7 +161,7 @@ def judgeTgoto (env : Env) (payload : String) : String :=
 open Spec.TermCaps in
 def judgeTcolor (env : Env) (payload : String) : String :=
   let (a, obs) := splitArrow payload
-  match words a with
+  match words (splitHist a).1 with
   | [name, fg, bgs] =>
     match env.lookup name with
     | none => "no-entry"
